@@ -41,6 +41,16 @@ func loadKnown(path string) *KnownFindings {
 // propsOf decides which properties an obligation counts for.
 func propsOf(o *Obligation, ct *Contract) []string {
 	if len(o.Props) > 0 {
+		// C10 (independence from aliasing and from the receiver's previous contents) is the
+		// corollary of the result-determining postconditions being proved with pointers,
+		// buffers and old receiver state unconstrained: every such clause also counts for C10.
+		if (o.Kind == "ensures" || o.Kind == "panics" || o.Kind == "onpanic") && !hasProp(o.Props, "C10") {
+			for _, p := range []string{"C01", "C02", "C03"} {
+				if hasProp(o.Props, p) {
+					return append(append([]string(nil), o.Props...), "C10")
+				}
+			}
+		}
 		return o.Props
 	}
 	kind := o.Kind
@@ -200,7 +210,7 @@ type CheckReport struct {
 
 // runCheck is the core of `dvc check`; overlay (optional) replaces source files (selftest).
 func runCheck(repo, verif, prop, tier string, seed int, overlay map[string][]byte) *CheckReport {
-	rep := &CheckReport{Property: prop, Tier: tier, Seed: seed, ByBackend: map[string]int{}, Functions: map[string][]string{}, Covers: map[string]string{}}
+	rep := &CheckReport{Property: prop, Tier: tier, Seed: seed, ByBackend: map[string]int{}, Functions: map[string][]string{}, Covers: map[string]string{}, Samples: []oblSummary{}, KnownSeen: []string{}, Failed: []oblSummary{}, Notes: []string{}, Bounded: []map[string]interface{}{}}
 	e, err := loadEngineOverlay(repo, "verif", overlay)
 	if err != nil {
 		// the tree does not load (e.g. does not compile): nothing can be decided; report as violation of the check's own precondition
